@@ -1,58 +1,1036 @@
+// C08 harness: kvstore.BatchedWriter under scripted and free-running schedules.
+//
+// Scripted mode: every client call (Enqueue / Flush / StopBatchWriter) runs in its own goroutine and is
+// released by the script; Enqueue calls can additionally be held at the verifYield hook (after the
+// scheduledCount increment, before the running check) and inside object.BatchWriteScheduled() (after the
+// flag test); the writer goroutine can be held inside every callback it makes (store.Batched, Reset, BatchWrite,
+// Commit/Cancel, BatchWriteDone).  After every script item the harness waits until every goroutine of the case
+// is parked or has returned (consistent runtime.Stack snapshot) and records what it saw.  The Coq side replays
+// the items on the model (Corr.replay).
+// Free mode: uncontrolled producers / flushers / Stop with a short batch timeout; the totally ordered event log is
+// judged by a Go-side oracle (safety automaton, completeness, final store) and by Corr.free_ok.
 package main
 
 import (
+	"bytes"
+	"flag"
 	"fmt"
+	"os"
+	"runtime"
+	"strconv"
+	"strings"
+	"sync"
 	"sync/atomic"
 	"time"
 
 	"github.com/iotaledger/hive.go/kvstore"
 	"github.com/iotaledger/hive.go/kvstore/mapdb"
+
+	"verif/harness/vx"
 )
 
-type obj struct {
-	flag    atomic.Bool
-	written atomic.Int32
-	done    atomic.Int32
-	gate    chan struct{}
-	at      chan struct{}
+// ---------------------------------------------------------------- goroutine inspection
+
+func curGid() uint64 {
+	var b [64]byte
+	n := runtime.Stack(b[:], false)
+	f := bytes.Fields(b[:n])
+	id, _ := strconv.ParseUint(string(f[1]), 10, 64)
+	return id
 }
 
-func (o *obj) BatchWrite(m kvstore.BatchedMutations) { o.written.Add(1); _ = m.Set([]byte{1}, []byte{1}) }
-func (o *obj) BatchWriteDone()                      { o.done.Add(1) }
-func (o *obj) BatchWriteScheduled() bool {
+type ginfo struct {
+	state  string
+	writer bool
+}
+
+var dumpBuf = make([]byte, 1<<18)
+var dumpMu sync.Mutex
+
+func dump() map[uint64]ginfo {
+	dumpMu.Lock()
+	defer dumpMu.Unlock()
+	for {
+		n := runtime.Stack(dumpBuf, true)
+		if n < len(dumpBuf) {
+			res := map[uint64]ginfo{}
+			for _, blk := range bytes.Split(dumpBuf[:n], []byte("\n\n")) {
+				if !bytes.HasPrefix(blk, []byte("goroutine ")) {
+					continue
+				}
+				rest := blk[len("goroutine "):]
+				sp := bytes.IndexByte(rest, ' ')
+				id, _ := strconv.ParseUint(string(rest[:sp]), 10, 64)
+				lb := bytes.IndexByte(rest, '[')
+				rb := bytes.IndexByte(rest, ']')
+				st := string(rest[lb+1 : rb])
+				if c := strings.IndexByte(st, ','); c >= 0 {
+					st = st[:c]
+				}
+				res[id] = ginfo{state: st, writer: bytes.Contains(blk, []byte(").runBatchWriter")) || bytes.Contains(blk, []byte("startBatchWriter.gowrap")) ||
+					bytes.Contains(blk, []byte("startBatchWriter.func"))} // a goroutine that has not run yet shows only the go-statement wrapper
+			}
+			return res
+		}
+		dumpBuf = make([]byte, 2*len(dumpBuf))
+	}
+}
+
+// goroutine status names of the runtime that are not wait reasons
+func parked(st string) bool {
+	switch st {
+	case "running", "runnable", "syscall", "preempted", "copystack", "idle", "dead", "waiting", "":
+		return false
+	}
+	return true
+}
+
+// ---------------------------------------------------------------- events
+
+const (
+	kBatched = iota
+	kReset
+	kWrite
+	kCommit // also Cancel
+	kDone
+	kSet
+	kInv
+	kRet
+)
+
+type event struct {
+	kind   int
+	o, v   int
+	t      int
+	cancel bool
+	batch  [][2]int
+}
+
+func (e event) coq() string {
+	switch e.kind {
+	case kBatched:
+		return "EvBatched"
+	case kReset:
+		return fmt.Sprintf("EvReset %d", e.o)
+	case kWrite:
+		return fmt.Sprintf("EvWrite %d %d", e.o, e.v)
+	case kCommit:
+		if e.cancel {
+			return "EvCancel"
+		}
+		return "EvCommit " + vx.ListOf(e.batch, func(p [2]int) string { return fmt.Sprintf("(%d, %d)", p[0], p[1]) })
+	case kDone:
+		return fmt.Sprintf("EvDone %d", e.o)
+	case kSet:
+		return fmt.Sprintf("EvSet %d %d %d", e.t, e.o, e.v)
+	case kInv:
+		return fmt.Sprintf("EvInv %d", e.t)
+	case kRet:
+		return fmt.Sprintf("EvRet %d %s", e.t, []string{"RAcc", "RRej", "RDup", "RUnit", "(RStop true)"}[e.v])
+	}
+	return "?"
+}
+
+func (e event) String() string { return e.coq() }
+
+// ---------------------------------------------------------------- instrumented world
+
+type world struct {
+	mu        sync.Mutex
+	events    []event
+	vals      []int
+	gateMask  int
+	pass      atomic.Bool // gates are pass-through (cleanup / free mode)
+	wRelease  chan struct{}
+	wAtGate   atomic.Bool
+	writerGid atomic.Uint64
+	armedAt   atomic.Int64 // unix nanos of the last Batched without a Commit/Cancel since; 0 = none
+	inner     kvstore.KVStore
+	objs      []*object
+}
+
+var knownWriters sync.Map // gid -> true
+
+func (w *world) wevent(e event) {
+	w.mu.Lock()
+	w.events = append(w.events, e)
+	w.mu.Unlock()
+	switch e.kind {
+	case kBatched:
+		w.armedAt.Store(time.Now().UnixNano())
+	case kCommit:
+		w.armedAt.Store(0)
+	}
+	if e.kind <= kDone && w.gateMask&(1<<e.kind) != 0 && !w.pass.Load() {
+		w.wAtGate.Store(true)
+		<-w.wRelease
+		w.wAtGate.Store(false)
+	}
+}
+
+type wstore struct {
+	kvstore.KVStore
+	w *world
+}
+
+func (s *wstore) Batched() (kvstore.BatchedMutations, error) {
+	bm, err := s.KVStore.Batched()
+	if s.w.writerGid.Load() == 0 {
+		g := curGid()
+		knownWriters.Store(g, true)
+		s.w.writerGid.Store(g)
+	}
+	b := &wbatch{BatchedMutations: bm, w: s.w}
+	s.w.wevent(event{kind: kBatched})
+	return b, err
+}
+
+type wbatch struct {
+	kvstore.BatchedMutations
+	w    *world
+	sets [][2]int
+}
+
+func (b *wbatch) Set(k kvstore.Key, v kvstore.Value) error {
+	b.sets = append(b.sets, [2]int{int(k[0]), int(v[0])})
+	return b.BatchedMutations.Set(k, v)
+}
+func (b *wbatch) Cancel() {
+	b.BatchedMutations.Cancel()
+	b.w.wevent(event{kind: kCommit, cancel: true})
+}
+func (b *wbatch) Commit() error {
+	err := b.BatchedMutations.Commit()
+	b.w.wevent(event{kind: kCommit, batch: b.sets})
+	return err
+}
+
+type object struct {
+	id   int
+	flag atomic.Bool
+	w    *world
+}
+
+var opByGid sync.Map // gid -> *opRun
+
+func (o *object) BatchWriteScheduled() bool {
 	r := !o.flag.CompareAndSwap(false, true)
-	if o.gate != nil {
-		o.at <- struct{}{}
-		<-o.gate
+	if x, ok := opByGid.Load(curGid()); ok {
+		op := x.(*opRun)
+		op.flagCalled = true
+		op.flagRes = r
+		if op.HoldFlag && !o.w.pass.Load() {
+			op.atGate.Store(true)
+			<-op.gateCh
+			op.atGate.Store(false)
+		}
 	}
 	return r
 }
-func (o *obj) ResetBatchWriteScheduled() { o.flag.Store(false) }
+func (o *object) ResetBatchWriteScheduled() {
+	o.flag.Store(false)
+	o.w.wevent(event{kind: kReset, o: o.id})
+}
+func (o *object) BatchWrite(m kvstore.BatchedMutations) {
+	o.w.mu.Lock()
+	v := o.w.vals[o.id]
+	o.w.mu.Unlock()
+	_ = m.Set([]byte{byte(o.id)}, []byte{byte(v)})
+	o.w.wevent(event{kind: kWrite, o: o.id, v: v})
+}
+func (o *object) BatchWriteDone() { o.w.wevent(event{kind: kDone, o: o.id}) }
 
-func main() {
-	for _, q := range []int{0, 1} {
-		bw := kvstore.NewBatchedWriter(mapdb.NewMapDB(), kvstore.WithBatchTimeout(time.Millisecond), kvstore.WithQueueSize(q), kvstore.WithBatchSize(1))
-		a := &obj{}
-		bw.Enqueue(a) // starts the writer
-		b := &obj{gate: make(chan struct{}), at: make(chan struct{}, 1)}
-		ret := make(chan struct{})
-		go func() { bw.Enqueue(b); close(ret) }()
-		<-b.at // b passed the running check and the flag test
-		stopped := make(chan struct{})
-		go func() { bw.StopBatchWriter(); close(stopped) }()
-		select {
-		case <-stopped:
-			fmt.Println("Stop returned while Enqueue(b) is past the running check")
-		case <-time.After(100 * time.Millisecond):
-			fmt.Println("Stop waits for the in-flight Enqueue(b)")
-		}
-		close(b.gate)
-		<-stopped
-		select {
-		case <-ret:
-			fmt.Printf("queue %d: Enqueue(b) returned; a done=%d, b written=%d done=%d flag=%v\n", q, a.done.Load(), b.written.Load(), b.done.Load(), b.flag.Load())
-		case <-time.After(2 * time.Second):
-			fmt.Printf("queue %d: Enqueue(b) still blocked 2s after Stop returned; b written=%d\n", q, b.written.Load())
+func newWorld(nobj, mask int) *world {
+	w := &world{vals: make([]int, nobj), gateMask: mask, wRelease: make(chan struct{}), inner: mapdb.NewMapDB()}
+	for i := 0; i < nobj; i++ {
+		w.objs = append(w.objs, &object{id: i, w: w})
+	}
+	return w
+}
+
+func (w *world) finalStore() []int { // -1 = absent
+	res := make([]int, len(w.objs))
+	for i := range w.objs {
+		v, err := w.inner.Get([]byte{byte(i)})
+		if err != nil || len(v) == 0 {
+			res[i] = -1
+		} else {
+			res[i] = int(v[0])
 		}
 	}
+	return res
+}
+
+func storeCoq(f []int) string {
+	return vx.ListOf(f, func(v int) string {
+		if v < 0 {
+			return "None"
+		}
+		return fmt.Sprintf("(Some %d)", v)
+	})
+}
+
+// ---------------------------------------------------------------- scripted mode
+
+const (
+	opEnq = iota
+	opFlush
+	opStop
+)
+
+type opSpec struct {
+	Kind     int  `json:"kind"`
+	Obj      int  `json:"obj"`
+	Val      int  `json:"val"`
+	HoldHook bool `json:"hold_hook,omitempty"`
+	HoldFlag bool `json:"hold_flag,omitempty"`
+}
+
+type opRun struct {
+	opSpec
+	idx        int
+	gid        atomic.Uint64
+	started    bool
+	returned   atomic.Bool
+	atHook     atomic.Bool
+	atGate     atomic.Bool
+	hookCh     chan struct{}
+	gateCh     chan struct{}
+	flagCalled bool
+	flagRes    bool
+}
+
+func (op *opRun) class() int {
+	switch op.Kind {
+	case opFlush:
+		return 3
+	case opStop:
+		return 4
+	}
+	if !op.flagCalled {
+		return 1
+	}
+	if op.flagRes {
+		return 2
+	}
+	return 0
+}
+
+type scriptCase struct {
+	Q, B  int      `json:"-"`
+	Mask  int      `json:"gate_mask"`
+	Ops   []opSpec `json:"ops"`
+	Items []string `json:"items"`
+	Desc  string   `json:"cfg"`
+}
+
+type itemObs struct {
+	item    string
+	events  []event
+	ret     [][2]int
+	running bool
+	sched   int
+	qlen    int
+	token   bool
+}
+
+type runner struct {
+	w        *world
+	bw       *kvstore.BatchedWriter
+	ops      []*opRun
+	T        time.Duration
+	seen     int // events already reported
+	obs      []itemObs
+	tainted  bool
+	hang     string
+	lastDump map[uint64]ginfo
+}
+
+func (r *runner) quiesce() bool {
+	deadline := time.Now().Add(5 * time.Second)
+	for spins := 0; ; spins++ {
+		ok := true
+		type chk struct {
+			gid uint64
+		}
+		var need []uint64
+		for _, op := range r.ops {
+			if !op.started || op.returned.Load() {
+				continue
+			}
+			g := op.gid.Load()
+			if g == 0 {
+				ok = false
+				break
+			}
+			need = append(need, g)
+		}
+		if ok {
+			d := dump()
+			for _, g := range need {
+				gi, present := d[g]
+				if !present || !parked(gi.state) {
+					ok = false
+				}
+			}
+			for g, gi := range d {
+				if gi.writer {
+					if _, known := knownWriters.Load(g); !known && !parked(gi.state) {
+						ok = false
+					}
+				}
+			}
+			if wg := r.w.writerGid.Load(); wg != 0 {
+				if gi, present := d[wg]; present && !parked(gi.state) {
+					ok = false
+				}
+			} else {
+				for _, gi := range d { // a writer that has not reached its first callback yet
+					if gi.writer && !parked(gi.state) {
+						ok = false
+					}
+				}
+			}
+			// an op that returned after we sampled it is fine; one that vanished without the flag is re-checked above
+			if ok {
+				r.lastDump = d
+				return true
+			}
+		}
+		if time.Now().After(deadline) {
+			return false
+		}
+		if spins < 50 {
+			runtime.Gosched()
+		} else {
+			time.Sleep(50 * time.Microsecond)
+		}
+	}
+}
+
+func (r *runner) writerInSelect() bool {
+	wg := r.w.writerGid.Load()
+	if wg == 0 || r.lastDump == nil {
+		return false
+	}
+	gi, ok := r.lastDump[wg]
+	return ok && gi.state == "select"
+}
+
+func (r *runner) observe(item string) {
+	r.w.mu.Lock()
+	ev := append([]event(nil), r.w.events[r.seen:]...)
+	r.seen = len(r.w.events)
+	r.w.mu.Unlock()
+	o := itemObs{item: item, events: ev}
+	for _, op := range r.ops {
+		if op.started && op.returned.Load() {
+			o.ret = append(o.ret, [2]int{op.idx, op.class()})
+		}
+	}
+	o.running, o.sched, o.qlen, o.token = r.bw.VerifState()
+	r.obs = append(r.obs, o)
+}
+
+func (r *runner) release(op *opRun) {
+	op.started = true
+	go func() {
+		g := curGid()
+		opByGid.Store(g, op)
+		op.gid.Store(g)
+		switch op.Kind {
+		case opEnq:
+			r.w.mu.Lock()
+			r.w.vals[op.Obj] = op.Val
+			r.w.mu.Unlock()
+			r.bw.Enqueue(r.w.objs[op.Obj])
+		case opFlush:
+			r.bw.Flush()
+		case opStop:
+			r.bw.StopBatchWriter()
+		}
+		opByGid.Delete(g)
+		op.returned.Store(true)
+	}()
+}
+
+func hookFn(point string) {
+	if x, ok := opByGid.Load(curGid()); ok {
+		op := x.(*opRun)
+		if op.holdHook() {
+			op.atHook.Store(true)
+			<-op.hookCh
+			op.atHook.Store(false)
+		}
+	}
+}
+
+var hooksPass atomic.Bool
+
+func (op *opRun) holdHook() bool { return op.HoldHook && !hooksPass.Load() }
+
+// runScript generates and runs one scripted case. Returns nil if the case was timing-tainted.
+func runScript(rng *vx.Rng, directed int) (*scriptCase, *runner) {
+	q := rng.Intn(4)
+	b := 1 + rng.Intn(3)
+	nobj := 3
+	mask := 0
+	switch rng.Intn(5) {
+	case 0, 1:
+	case 2:
+		mask = 31
+	default:
+		mask = rng.Intn(32)
+	}
+	nops := 2 + rng.Intn(6)
+	var specs []opSpec
+	stops := 0
+	for i := 0; i < nops; i++ {
+		x := rng.Intn(100)
+		switch {
+		case x < 62 || i == 0:
+			specs = append(specs, opSpec{Kind: opEnq, Obj: rng.Intn(nobj), Val: i + 1, HoldHook: rng.Chance(1, 4), HoldFlag: rng.Chance(1, 4)})
+		case x < 77:
+			specs = append(specs, opSpec{Kind: opFlush})
+		default:
+			if stops < 2 {
+				stops++
+				specs = append(specs, opSpec{Kind: opStop})
+			} else {
+				specs = append(specs, opSpec{Kind: opEnq, Obj: rng.Intn(nobj), Val: i + 1})
+			}
+		}
+	}
+	var fixedItems []string
+	switch directed {
+	case 1: // D08b regression: Enqueue(b) held after its running check while Stop runs; queue 0
+		q, b, mask = 0, 1, 0
+		specs = []opSpec{{Kind: opEnq, Obj: 0, Val: 1}, {Kind: opEnq, Obj: 1, Val: 2, HoldFlag: true}, {Kind: opStop}}
+		fixedItems = []string{"IRel 0", "IRel 1", "IRel 2", "IWait", "IGate 1", "IWait", "IWait"}
+	case 2: // same with queue 1
+		q, b, mask = 1, 2, 0
+		specs = []opSpec{{Kind: opEnq, Obj: 0, Val: 1}, {Kind: opEnq, Obj: 1, Val: 2, HoldFlag: true}, {Kind: opStop}}
+		fixedItems = []string{"IRel 0", "IRel 1", "IRel 2", "IWait", "IGate 1", "IWait", "IWait"}
+	case 3: // Enqueue held at the hook (counter raised) while Stop runs: rejected, writer makes one more round
+		q, b, mask = 1, 1, 0
+		specs = []opSpec{{Kind: opEnq, Obj: 0, Val: 1}, {Kind: opEnq, Obj: 1, Val: 2, HoldHook: true}, {Kind: opStop}}
+		fixedItems = []string{"IRel 0", "IRel 1", "IRel 2", "IWait", "IHook 1", "IWait", "IWait"}
+	case 4: // D08a regression shape: Stop directly after the first Enqueue, writer held in its first callback
+		q, b, mask = 1, 1, 1
+		specs = []opSpec{{Kind: opEnq, Obj: 0, Val: 1}, {Kind: opStop}}
+		fixedItems = []string{"IRel 0", "IRel 1", "IW", "IW", "IW", "IW", "IW", "IW", "IW"}
+	}
+	T := 50 * time.Millisecond
+	w := newWorld(nobj, mask)
+	r := &runner{w: w, T: T}
+	r.bw = kvstore.NewBatchedWriter(&wstore{KVStore: w.inner, w: w}, kvstore.WithQueueSize(q), kvstore.WithBatchSize(b), kvstore.WithBatchTimeout(T))
+	for i, s := range specs {
+		r.ops = append(r.ops, &opRun{opSpec: s, idx: i, hookCh: make(chan struct{}), gateCh: make(chan struct{})})
+	}
+	sc := &scriptCase{Q: q, B: b, Mask: mask, Ops: specs, Desc: fmt.Sprintf("queue=%d batch=%d", q, b)}
+	next := 0
+	trailing := 0
+	for step := 0; step < 60 && r.hang == ""; step++ {
+		// feasible actions
+		type act struct {
+			item string
+			w    int
+		}
+		var acts []act
+		if fixedItems != nil {
+			if step >= len(fixedItems) {
+				break
+			}
+			if fixedItems[step] == "IWait" && !r.writerInSelect() {
+				continue
+			}
+			acts = []act{{fixedItems[step], 1}}
+		} else {
+			if next < len(r.ops) {
+				acts = append(acts, act{fmt.Sprintf("IRel %d", next), 4})
+			}
+			stopParked := false
+			for _, op := range r.ops {
+				if op.atHook.Load() {
+					acts = append(acts, act{fmt.Sprintf("IHook %d", op.idx), 2})
+				}
+				if op.atGate.Load() {
+					acts = append(acts, act{fmt.Sprintf("IGate %d", op.idx), 2})
+				}
+				if op.Kind == opStop && op.started && !op.returned.Load() {
+					stopParked = true
+				}
+			}
+			if w.wAtGate.Load() {
+				acts = append(acts, act{"IW", 6})
+			} else if r.writerInSelect() {
+				wt := 1
+				if stopParked {
+					wt = 4
+				}
+				if len(acts) == 0 {
+					trailing++
+					if trailing > 2 {
+						break
+					}
+				}
+				acts = append(acts, act{"IWait", wt})
+			}
+			if len(acts) == 0 {
+				break
+			}
+		}
+		tot := 0
+		for _, a := range acts {
+			tot += a.w
+		}
+		x := rng.Intn(tot)
+		var it string
+		for _, a := range acts {
+			if x < a.w {
+				it = a.item
+				break
+			}
+			x -= a.w
+		}
+		var idx int
+		if strings.Contains(it, " ") {
+			idx, _ = strconv.Atoi(it[strings.IndexByte(it, ' ')+1:])
+		}
+		switch {
+		case strings.HasPrefix(it, "IRel"):
+			r.release(r.ops[idx])
+			if idx >= next {
+				next = idx + 1
+			}
+		case strings.HasPrefix(it, "IHook"):
+			if r.ops[idx].atHook.Load() {
+				r.ops[idx].hookCh <- struct{}{}
+			}
+		case strings.HasPrefix(it, "IGate"):
+			if r.ops[idx].atGate.Load() {
+				r.ops[idx].gateCh <- struct{}{}
+			}
+		case it == "IW":
+			if w.wAtGate.Load() {
+				w.wRelease <- struct{}{}
+			}
+		case it == "IWait":
+			// wait for the timer: the next writer callback
+			w.mu.Lock()
+			n0 := len(w.events)
+			w.mu.Unlock()
+			dl := time.Now().Add(20*T + 2*time.Second)
+			for {
+				w.mu.Lock()
+				n := len(w.events)
+				w.mu.Unlock()
+				if n > n0 {
+					break
+				}
+				if time.Now().After(dl) {
+					if fixedItems == nil {
+						r.hang = "no timeout callback"
+					}
+					break
+				}
+				time.Sleep(200 * time.Microsecond)
+			}
+		}
+		if !r.quiesce() {
+			r.hang = "no quiescence after " + it
+		}
+		if it != "IWait" {
+			if a := w.armedAt.Load(); a != 0 && time.Now().UnixNano()-a > int64(T/2) {
+				r.tainted = true
+			}
+		}
+		sc.Items = append(sc.Items, it)
+		r.observe(it)
+		if r.tainted {
+			break
+		}
+	}
+	return sc, r
+}
+
+// cleanup lets everything run and stops the writer (asynchronously; it ends with the next batch timeout).
+func (r *runner) cleanup() {
+	r.w.pass.Store(true)
+	close(r.w.wRelease)
+	for _, op := range r.ops {
+		close(op.hookCh)
+		close(op.gateCh)
+	}
+	bw := r.bw
+	go bw.StopBatchWriter()
+}
+
+func itemCoq(o itemObs) string {
+	return fmt.Sprintf("(%s, mkobs %s %s %s %s %d %s)", o.item,
+		vx.ListOf(o.events, func(e event) string { return e.coq() }),
+		vx.ListOf(o.ret, func(p [2]int) string { return fmt.Sprintf("(%d, %d)", p[0], p[1]) }),
+		vx.Bool(o.running), vx.Z(int64(o.sched)), o.qlen, vx.Bool(o.token))
+}
+
+func opCoq(s opSpec) string {
+	switch s.Kind {
+	case opEnq:
+		return fmt.Sprintf("OEnq %d %d", s.Obj, s.Val)
+	case opFlush:
+		return "OFlush"
+	}
+	return "OStop"
+}
+
+// ---------------------------------------------------------------- Go-side oracle on an event log
+
+// judge returns "" or what is wrong. stopRet = index in log after which Stop had returned (-1: none).
+func judge(log []event, final []int, stopped bool) string {
+	var unc [][2]int
+	var pend []int
+	store := map[int]int{}
+	nw, nd := map[int]int{}, map[int]int{}
+	lastSet := map[int]event{}
+	lastWriteAfterSet := map[int]bool{}
+	retOf := map[int]int{}
+	stopInv, stopRet := -1, -1
+	for i, e := range log {
+		switch e.kind {
+		case kSet:
+			lastSet[e.o] = e
+			lastWriteAfterSet[e.o] = false
+		case kInv:
+			if stopInv < 0 {
+				stopInv = i
+			}
+		case kRet:
+			retOf[e.t] = e.v
+			if e.v == 4 && stopRet < 0 {
+				stopRet = i
+			}
+			if e.v == 1 && stopInv < 0 {
+				return fmt.Sprintf("Enqueue call %d rejected although no Stop had been invoked", e.t)
+			}
+		case kBatched:
+			if len(unc) != 0 || len(pend) != 0 {
+				return "new batch while the previous one is open or BatchWriteDone calls are due"
+			}
+		case kWrite:
+			if len(pend) != 0 {
+				return "BatchWrite while BatchWriteDone calls are due"
+			}
+			unc = append(unc, [2]int{e.o, e.v})
+			nw[e.o]++
+			lastWriteAfterSet[e.o] = true
+		case kCommit:
+			if e.cancel {
+				if len(unc) != 0 {
+					return "Cancel of a batch with mutations"
+				}
+				break
+			}
+			if len(pend) != 0 || len(e.batch) == 0 || fmt.Sprint(e.batch) != fmt.Sprint(unc) {
+				return fmt.Sprintf("commit %v does not contain exactly the written mutations %v", e.batch, unc)
+			}
+			for _, p := range unc {
+				store[p[0]] = p[1]
+				pend = append(pend, p[0])
+			}
+			unc = nil
+		case kDone:
+			if len(pend) == 0 || pend[0] != e.o {
+				return fmt.Sprintf("BatchWriteDone(%d) without a preceding commit of its mutation", e.o)
+			}
+			pend = pend[1:]
+			nd[e.o]++
+		}
+		if stopRet >= 0 && i > stopRet && e.kind <= kDone {
+			return "writer callback " + e.coq() + " after StopBatchWriter returned"
+		}
+	}
+	for o, v := range final {
+		sv, ok := store[o]
+		if (v < 0) != !ok || (ok && sv != v) {
+			return fmt.Sprintf("final store of object %d is %d, commits say %v/%v", o, v, sv, ok)
+		}
+	}
+	if stopped {
+		if len(unc) != 0 || len(pend) != 0 {
+			return "Stop returned with an open batch or BatchWriteDone calls due"
+		}
+		for o, e := range lastSet {
+			c, ok := retOf[e.t]
+			if ok && (c == 0 || c == 2) {
+				if !lastWriteAfterSet[o] || final[o] != e.v {
+					return fmt.Sprintf("Enqueue call %d of object %d (content %d) was accepted but the store holds %d after Stop", e.t, o, e.v, final[o])
+				}
+			}
+		}
+		for o := range nw {
+			if nw[o] != nd[o] {
+				return fmt.Sprintf("object %d: %d BatchWrite, %d BatchWriteDone", o, nw[o], nd[o])
+			}
+		}
+	}
+	return ""
+}
+
+// ---------------------------------------------------------------- free mode
+
+type freeCase struct {
+	Desc string `json:"cfg"`
+	Seed uint64 `json:"sub_seed"`
+}
+
+func runFree(rng *vx.Rng, shape int) (log []event, final []int, desc string, hang string) {
+	q := rng.Intn(4)
+	b := 1 + rng.Intn(3)
+	nobj := 3
+	T := time.Duration(1+rng.Intn(3)) * time.Millisecond
+	nprod := 1 + rng.Intn(3)
+	per := 1 + rng.Intn(4)
+	if shape == 1 { // Stop directly after the first Enqueue
+		nprod = 0
+	}
+	w := newWorld(nobj, 0)
+	w.pass.Store(true)
+	bw := kvstore.NewBatchedWriter(&wstore{KVStore: w.inner, w: w}, kvstore.WithQueueSize(q), kvstore.WithBatchSize(b), kvstore.WithBatchTimeout(T))
+	desc = fmt.Sprintf("free queue=%d batch=%d timeout=%v producers=%d x %d shape=%d", q, b, T, nprod, per, shape)
+	var tid atomic.Int32
+	enq := func(o, v int) {
+		t := int(tid.Add(1)) - 1
+		op := &opRun{opSpec: opSpec{Kind: opEnq}}
+		g := curGid()
+		opByGid.Store(g, op)
+		w.mu.Lock()
+		w.vals[o] = v
+		w.events = append(w.events, event{kind: kSet, t: t, o: o, v: v})
+		w.mu.Unlock()
+		bw.Enqueue(w.objs[o])
+		opByGid.Delete(g)
+		w.mu.Lock()
+		w.events = append(w.events, event{kind: kRet, t: t, v: op.class()})
+		w.mu.Unlock()
+	}
+	enq(rng.Intn(nobj), 1) // starts the writer; returned before Stop is invoked
+	var wgp sync.WaitGroup
+	for p := 0; p < nprod; p++ {
+		pr := rng.Fork()
+		wgp.Add(1)
+		go func(p int) {
+			defer wgp.Done()
+			for k := 0; k < per; k++ {
+				if pr.Chance(1, 5) {
+					bw.Flush()
+				}
+				if pr.Chance(1, 3) {
+					time.Sleep(time.Duration(pr.Intn(300)) * time.Microsecond)
+				}
+				enq(pr.Intn(nobj), 2+p*per+k)
+			}
+		}(p)
+	}
+	if shape != 1 && rng.Chance(2, 3) {
+		time.Sleep(time.Duration(rng.Intn(1500)) * time.Microsecond)
+	}
+	if shape == 2 { // producers done before Stop
+		wgp.Wait()
+	}
+	stopT := int(tid.Add(1)) - 1
+	w.mu.Lock()
+	w.events = append(w.events, event{kind: kInv, t: stopT})
+	w.mu.Unlock()
+	done := make(chan struct{})
+	go func() {
+		bw.StopBatchWriter()
+		w.mu.Lock()
+		w.events = append(w.events, event{kind: kRet, t: stopT, v: 4})
+		w.mu.Unlock()
+		wgp.Wait()
+		close(done)
+	}()
+	select {
+	case <-done:
+	case <-time.After(10 * time.Second):
+		hang = "Stop or an Enqueue call did not return within 10s"
+	}
+	time.Sleep(time.Duration(2+rng.Intn(3)) * T) // a writer that is still alive would show up in the log
+	w.mu.Lock()
+	log = append([]event(nil), w.events...)
+	w.mu.Unlock()
+	final = w.finalStore()
+	return
+}
+
+// ---------------------------------------------------------------- main
+
+func main() {
+	if len(os.Args) < 2 {
+		vx.Die("usage: hx-c08 run [flags]")
+	}
+	fs := flag.NewFlagSet("run", flag.ExitOnError)
+	n := fs.Int("n", 200, "scripted cases")
+	nfree := fs.Int("free", 100, "free-running cases")
+	workers := fs.Int("workers", 4, "parallel scripted cases")
+	seed := fs.Uint64("seed", 1, "seed")
+	out := fs.String("out", "cases.v", "cases file")
+	stats := fs.String("stats", "stats.json", "stats file")
+	_ = fs.Parse(os.Args[2:])
+
+	kvstore.SetVerifYield(hookFn)
+	rng := vx.NewRng(*seed)
+	st := vx.NewStats("scripted: 2-7 client calls (Enqueue on 3 objects / Flush / Stop) released in scripted order, optional holds at the Enqueue hook / flag test / writer callbacks, queue 0-3, batch 1-3, timer waits; free: 1-3 producers x 1-4 Enqueue + Flush + racing Stop, timeout 1-3ms; distinct = distinct (config, item sequence); non-trivial = at least one commit and one Stop or hold")
+	cf := &vx.CasesFile{
+		Header: "From Coq Require Import List Bool ZArith.\nFrom Verif.C08_Batch Require Import Model Corr.\nImport ListNotations.\n",
+		Type:   "case",
+		Footer: "Definition M := Eval vm_compute in mismatches cases.\nPrint M.\n",
+	}
+	tainted := 0
+	type result struct {
+		sc      *scriptCase
+		r       *runner
+		final   []int
+		retries int
+	}
+	results := make([]result, *n)
+	subs := make([][]*vx.Rng, *n)
+	for i := range subs {
+		for try := 0; try < 5; try++ {
+			subs[i] = append(subs[i], rng.Fork())
+		}
+	}
+	var next atomic.Int32
+	var wgw sync.WaitGroup
+	for wk := 0; wk < *workers; wk++ {
+		wgw.Add(1)
+		go func() {
+			defer wgw.Done()
+			for {
+				i := int(next.Add(1)) - 1
+				if i >= *n {
+					return
+				}
+				directed := 0
+				if i < 4 {
+					directed = i + 1
+				}
+				for try := 0; try < 5; try++ {
+					sc, r := runScript(subs[i][try], directed)
+					final := r.w.finalStore()
+					r.cleanup()
+					if !r.tainted {
+						results[i] = result{sc: sc, r: r, final: final, retries: try}
+						break
+					}
+					results[i].retries = try + 1
+				}
+			}
+		}()
+	}
+	wgw.Wait()
+	for i := 0; i < *n; i++ {
+		sc, r, final := results[i].sc, results[i].r, results[i].final
+		tainted += results[i].retries
+		for k := 0; k < results[i].retries; k++ {
+			st.Count("tainted-retry")
+		}
+		if sc == nil {
+			st.Count("tainted-dropped")
+			continue
+		}
+		holds := [][2]int{}
+		for j, s := range sc.Ops {
+			if s.HoldHook {
+				holds = append(holds, [2]int{j, 0})
+			}
+			if s.HoldFlag {
+				holds = append(holds, [2]int{j, 1})
+			}
+		}
+		term := fmt.Sprintf("Scripted %d %d %d %s %s %s %s", sc.Q, sc.B, sc.Mask,
+			vx.ListOf(sc.Ops, opCoq),
+			vx.ListOf(holds, func(p [2]int) string { return fmt.Sprintf("(%d, %d)", p[0], p[1]) }),
+			vx.ListOf(r.obs, itemCoq), storeCoq(final))
+		cf.Add(term)
+		st.CaseIndex = append(st.CaseIndex, map[string]any{"mode": "scripted", "cfg": sc.Desc, "gate_mask": sc.Mask, "ops": sc.Ops, "items": sc.Items})
+		// oracle on the recorded writer events
+		r.w.mu.Lock()
+		lg := append([]event(nil), r.w.events[:r.seen]...)
+		r.w.mu.Unlock()
+		commits, holdsUsed, stopRet := 0, false, false
+		for _, e := range lg {
+			if e.kind == kCommit && !e.cancel {
+				commits++
+			}
+		}
+		for _, it := range sc.Items {
+			if strings.HasPrefix(it, "IHook") || strings.HasPrefix(it, "IGate") || it == "IW" {
+				holdsUsed = true
+			}
+		}
+		for _, op := range r.ops {
+			if op.Kind == opStop && op.returned.Load() {
+				stopRet = true
+			}
+		}
+		if msg := judge(lg, final, false); msg != "" {
+			st.Fail(map[string]any{"mode": "scripted", "what": msg, "cfg": sc.Desc, "ops": sc.Ops, "items": sc.Items})
+		}
+		if r.hang != "" {
+			st.Fail(map[string]any{"mode": "scripted", "what": "harness watchdog: " + r.hang, "cfg": sc.Desc, "ops": sc.Ops, "items": sc.Items})
+		}
+		// completeness at the end of a scripted case: every call has been released and left to finish
+		st.Case(fmt.Sprint(sc.Desc, sc.Mask, sc.Ops, sc.Items), commits > 0 && (stopRet || holdsUsed))
+		st.Count(fmt.Sprintf("scripted/queue=%d", sc.Q))
+		st.Count(fmt.Sprintf("scripted/batch=%d", sc.B))
+		if stopRet {
+			st.Count("scripted/stop-returned")
+		}
+		if holdsUsed {
+			st.Count("scripted/gates-used")
+		}
+		for _, it := range sc.Items {
+			st.Count("item/" + strings.Fields(it)[0])
+		}
+	}
+	hooksPass.Store(true)
+	var ctr atomic.Uint64
+	kvstore.SetVerifYield(func(string) {
+		if c := ctr.Add(1); c%3 == 0 {
+			runtime.Gosched()
+		} else if c%7 == 0 {
+			time.Sleep(20 * time.Microsecond)
+		}
+	})
+	for i := 0; i < *nfree; i++ {
+		sub := rng.Fork()
+		shape := i % 3
+		log, final, desc, hang := runFree(sub, shape)
+		cf.Add(fmt.Sprintf("Free %s 3 %s true", vx.ListOf(log, func(e event) string { return e.coq() }), storeCoq(final)))
+		st.CaseIndex = append(st.CaseIndex, map[string]any{"mode": "free", "cfg": desc, "index": i})
+		if hang != "" {
+			st.Fail(map[string]any{"mode": "free", "what": hang, "cfg": desc, "index": i})
+		} else if msg := judge(log, final, true); msg != "" {
+			st.Fail(map[string]any{"mode": "free", "what": msg, "cfg": desc, "index": i, "log": fmt.Sprint(log)})
+		}
+		rej := false
+		for _, e := range log {
+			if e.kind == kRet && e.v == 1 {
+				rej = true
+			}
+		}
+		st.Case(fmt.Sprint(desc, log), len(log) > 8)
+		st.Count(fmt.Sprintf("free/shape=%d", shape))
+		if rej {
+			st.Count("free/enqueue-rejected-by-racing-stop")
+		}
+	}
+	if err := cf.Write(*out); err != nil {
+		vx.Die("write cases: %v", err)
+	}
+	if err := st.Write(*stats); err != nil {
+		vx.Die("write stats: %v", err)
+	}
+	fmt.Printf("c08: %d scripted (%d tainted retries), %d free, %d oracle failures\n", *n, tainted, *nfree, len(st.OracleFailures))
 }
